@@ -249,10 +249,14 @@ def run_case(case):
                     if o_ != n_:
                         st_["distinct_bracket"] += 1
                 extra = 0.0
+                # the elapsed time is computed in the time's dtype (tensor times) or cast to the record's dtype (scalar
+                # times); the interpolation itself runs in the promoted dtype of data and time
+                eff = "float32" if f32 else "float64"
                 if status == "off" and name == "linear":
-                    extra = abs(n_ - o_) / dt * _dt_err(float(tvals[key]), dt, tdtype)  # slope x error of the elapsed time
+                    # slope x error of the elapsed time, plus cancellation between the two (possibly huge) samples
+                    extra = abs(n_ - o_) / dt * _dt_err(float(tvals[key]), dt, eff) + 16 * tm.EPS[eff] * (abs(o_) + abs(n_))
                 elif status == "off" and name in ("expdecay", "expratedecay"):
-                    extra = abs(o_) / tau * _dt_err(float(tvals[key]), dt, tdtype)
+                    extra = abs(o_) / tau * _dt_err(float(tvals[key]), dt, eff) + 16 * tm.EPS[eff] * abs(o_)
                 check(
                     _same(g[key], want) if (status == "on" or name in ("previous", "next", "nearest")) else _close(g[key], want, f32, extra),
                     f"select:{status}grid",
@@ -312,16 +316,21 @@ def run_case(case):
                 st_["off"] += 1
                 st_["insert_off"] += 1
                 exact = name in ("previous", "next", "neighbors", "nearest")
-                derr = _dt_err(float(tvals[key]), dt, tdtype)
+                eff = "float32" if (f32 or odt == torch.float32) else "float64"
+                derr = _dt_err(float(tvals[key]), dt, eff)
+                canc = 16 * tm.EPS[eff]
                 ex_o = ex_n = 0.0
                 if name == "linear_forward":
-                    ex_n = abs(x - o_) * dt / (elapsed * elapsed) * derr
+                    ex_n = abs(x - o_) * dt / (elapsed * elapsed) * derr + canc * (abs(x) + abs(o_)) * dt / elapsed
                 elif name == "linear_backward":
-                    ex_o = abs(n_ - x) * dt / ((dt - elapsed) ** 2) * derr
+                    ex_o = abs(n_ - x) * dt / ((dt - elapsed) ** 2) * derr + canc * (abs(x) + abs(n_)) * dt / (dt - elapsed)
                 elif name in ("expdecay", "expratedecay"):
-                    ex_o, ex_n = abs(eo) / tau * derr, abs(en) / tau * derr
-                expect[((off + older) % n, ix)] = (eo, exact or (eo == o_ and not adj), ex_o)
-                expect[((off + newer) % n, ix)] = (en, exact or (en == n_ and not adj), ex_n)
+                    ex_o, ex_n = abs(eo) / tau * derr + canc * abs(eo), abs(en) / tau * derr + canc * abs(en)
+                # kept neighbours of linear_forward / linear_backward (without adjust) are written back unchanged
+                keep_o = name == "linear_forward" and not adj
+                keep_n = name == "linear_backward" and not adj
+                expect[((off + older) % n, ix)] = (eo, exact or keep_o, ex_o)
+                expect[((off + newer) % n, ix)] = (en, exact or keep_n, ex_n)
             with impl("read back after " + what):
                 after = [rt.read(k).detach().to(torch.float64).numpy().reshape(shape) for k in range(n)]
                 check(rt.pointer == ptr and rt.recordsz == n, "insert:pointer",
@@ -335,7 +344,7 @@ def run_case(case):
                     wantv, exact = e[0], e[1]
                     untouched = len(e) == 3 and e[2] == "untouched"
                     extra_w = e[2] if (len(e) == 3 and not untouched) else 0.0
-                    ok = _same(gotv, wantv) if exact else _close(gotv, wantv, f32, extra_w)
+                    ok = _same(gotv, wantv) if exact else _close(gotv, wantv, f32 or odt == torch.float32, extra_w)
                     check(ok, "insert:untouched" if untouched else "insert:written",
                           lambda: f"{what} extrap={name} slot k={k} elem={ix} times={tvals.ravel().tolist()} (dt={dt}, tol={tol}, "
                                   f"N={n}, ptr={ptr}, offset={off}, inplace={op['inplace']}): got {gotv!r} want {wantv!r} "
